@@ -94,6 +94,12 @@ def f_type_flat():
     out.append(list(V8))
     out.append({k: v for k, v in zip(["a", "b", 1, 1.5, None, "", 0, -1], V8)})
     out.append({"a": 1, 1: "x", True: "y", 1.0: "z"})  # key collapse: one entry
+    # equal values of different type next to each other, in both orders (1 == True == 1.0, 0 == False == 0.0)
+    out.append(list(V))
+    out.append(list(reversed(V)))
+    out.append({"k%d" % i: v for i, v in enumerate(V)})
+    out.append([1, True, 1.0, 0, False, 0.0])
+    out.append([1.0, 1, False, 0])
     return out
 
 
@@ -110,4 +116,27 @@ def f_type_two_level():
         out.append([{k: 1}])
     out.append({"a": {"b": 1, "c": 2}, "b": {"b": "x"}, 0: [1, 2], 1: {"b": None}})
     out.append([[1, 2], {"a": 1}, [], {}, "a", [{"a": 2}]])
+    out.append({"a": [1, True, 1.0, 0, False, 0.0], "b": [1.0, 1]})
+    out.append([{"a": 1}, 7, {"a": 2}, None, {"a": True}, [], {"a": 1.0}])
+    return out
+
+
+def f_deep():
+    """Three- and four-level documents with asymmetric branches: at every level a scalar, an empty
+    container or a container of the other kind sits *before* (and after) a sibling that leads
+    further down, with castable / uncastable strings at the leaves."""
+    out = []
+    for v in V:
+        out.append({"x": v, "y": {"p": "8", "q": "true"}, "z": v})
+        out.append([v, {"a": "8"}, ["true", {"a": 1}]])
+    out += [
+        {"meta": {"version": 5}, "runs": {"r1": [[1, 2, 3], [4]], "r2": []}},
+        {"servers": ["localhost", {"port": "8080"}, None, {"port": "x"}]},
+        {"a": {"b": {"c": 1, "d": [1, {"e": "2"}]}, "e": 5}, "b": {"b": []}, "c": [[{"a": "true"}], [[1]]]},
+        [[{"a": 1}], [[1]], {"a": [{"a": 2}, 3]}, "s", []],
+        {"a": [1, [2, [3, [4]]]], 0: {0: {0: "0"}}, 1: [{1: "1"}, 1]},
+        {"k": {"a": 1}, "l": {"a": {"a": 1}}, "m": {"a": {"a": {"a": "1"}}}},
+        [{"a": []}, {"a": [0]}, {"a": [[]]}, {"a": [[0]]}, {"a": {}}],
+        {"a": {"x": 1}, "b": {"y": [1]}, "c": 1, "d": {"y": [2, 3]}},
+    ]
     return out
